@@ -129,13 +129,20 @@ def _job(args):
     res = common.model_run([wire])[0]
     viol, disag, stats = [], [], {}
     nontriv = 0
-    for h, m in zip(hists, res):
-        k, fam, listing, _ = layers.run_la_impl([ALL[s] for s in h])
+    runs = [(h, m, False) for h, m in zip(hists, res)]
+    # the same histories with every module name / pattern passed as a str-Enum-like member (a str whose str() is not its value):
+    # the plain-name table only, every third history
+    if tname == "plain":
+        runs += [(h, m, True) for i, (h, m) in enumerate(zip(hists, res)) if i % 3 == 0]
+    for h, m, member in runs:
+        k, fam, listing, _ = layers.run_la_impl([ALL[s] for s in h], member_names=member)
+        if member:
+            stats["histories_with_str_enum_like_names"] = stats.get("histories_with_str_enum_like_names", 0) + 1
         sk, sarch = la_spec(h, ALL)
         mk, march = m[0], lenc.dec_larch(m[1])
         stats["names_" + tname] = stats.get("names_" + tname, 0) + 1
         stats["accepted_all" if k == len(h) else "rejected"] = stats.get("accepted_all" if k == len(h) else "rejected", 0) + 1
-        case = dict(la_history=list(h), names=tname, calls=[list(ALL[x]) for x in h], impl_accepted_calls=k, impl_error=fam, impl_listing=listing, documented_accepted_calls=sk,
+        case = dict(la_history=list(h), names=tname, member_names=member, calls=[list(ALL[x]) for x in h], impl_accepted_calls=k, impl_error=fam, impl_listing=listing, documented_accepted_calls=sk,
                     documented_listing=[[a, b] for a, b in sarch], model_accepted_calls=mk)
         if k != sk:
             what = (f"call #{k} ({h[k]}) rejected although the documented rules accept it" if k < sk else
@@ -153,7 +160,7 @@ def _job(args):
             disag.append((case, f"model and implementation differ on LayeredArchitecture history {list(h)}"))
         if k == len(h) and len(listing) >= 1:
             nontriv += 1
-    return dict(n=len(hists), nontrivial=nontriv, stats=stats, violations=viol, disagreements=disag,
+    return dict(n=len(runs), nontrivial=nontriv, stats=stats, violations=viol, disagreements=disag,
                 pairs=[([15, wire[1][:20]], res[:20])], samples=[dict(history=list(hists[len(hists) // 3]))])
 
 
@@ -211,7 +218,7 @@ def replay(ctx: Ctx, path: str) -> int:
         return 2
     h = c["la_history"]
     table = TABLES[c.get("names", "plain")]
-    k, fam, listing, _ = layers.run_la_impl([table[s] for s in h])
+    k, fam, listing, _ = layers.run_la_impl([table[s] for s in h], member_names=bool(c.get("member_names")))
     sk, sarch = la_spec(h, table)
     if k < len(h) and fam != "ConfigError":
         print(h, "offending call raised", fam)
